@@ -281,7 +281,7 @@ def run(ctx):
         cases.append(c02eng.big_exclusion_case(r, n, shape, pad))
         tags.append({"big": (n, shape, pad), "ranged_bytes": c02eng.ranged_len_unrelated(n, pad) if shape == "unrelated" else None})
     # one exclusion WORD longer than any small fixed buffer (about 4 bytes per number)
-    for n, how in ((100, "x"), (300, "x"), (300, "w"), (700, "x")) + (() if quick else ((2000, "x"), (2000, "w"))):
+    for n, how in ((100, "x"), (300, "x"), (300, "w"), (700, "x"), (5000, "x")) + (() if quick else ((2000, "x"), (2000, "w"), (10240, "w"))):
         cases.append(c02eng.long_word_case(r, n, how))
         tags.append({"long_word": (n, how)})
     # exclusion words the parser cannot read: one item more than MAX_RANGES between the brackets; unbalanced brackets
